@@ -1,6 +1,8 @@
 package main
 
 import (
+	"strconv"
+
 	"github.com/mr-tron/base58"
 	"github.com/zeebo/blake3"
 )
@@ -9,3 +11,7 @@ func nativeB58Enc(b []byte) string           { return base58.Encode(b) }
 func nativeB58Dec(s string) ([]byte, error)  { return base58.Decode(s) }
 func nativeBlake3Sum256(b []byte) [32]byte   { return blake3.Sum256(b) }
 func nativeBlake3Derive(ctx string, material []byte, out []byte) { blake3.DeriveKey(ctx, material, out) }
+
+func fmtInt(v int64) string              { return strconv.FormatInt(v, 10) }
+func strconvFormat(v int64, b int) string { return strconv.FormatInt(v, b) }
+func strconvFormatU(v uint64, b int) string { return strconv.FormatUint(v, b) }
